@@ -74,7 +74,7 @@ func highestCommon(a, b *mchain) int {
 // unless BlkForever is set):
 //
 //	block chunks : ok slow late silent err few many range fork unlinked forgefirst dup empty
-//	hashes       : ok slow late silent err few many prev midfork edgefork empty dup
+//	hashes       : ok slow late silent err few many manycount prev midfork edgefork empty dup
 //	ancestor     : ok slow late silent nil bogus above low dup
 //	hash-by-no   : ok slow late silent err wrong nilhash dup
 //	anchors      : ok slow err
@@ -173,7 +173,7 @@ func h64(seed int64, parts ...interface{}) uint64 {
 // ---- generator -----------------------------------------------------------------------------
 
 var blkFaults = []string{"slow", "late", "silent", "err", "few", "many", "range", "fork", "unlinked", "dup", "empty"}
-var hashFaults = []string{"slow", "late", "silent", "err", "few", "many", "prev", "midfork", "empty"}
+var hashFaults = []string{"slow", "late", "silent", "err", "few", "many", "manycount", "prev", "midfork", "empty"}
 var ancFaults = []string{"slow", "late", "silent", "nil", "bogus", "above", "low", "dup"}
 var hnoFaults = []string{"slow", "late", "silent", "err", "wrong", "nilhash"}
 var addFaults = []string{"slow", "err", "dup", "wronghash"}
@@ -250,9 +250,9 @@ func genScenarios(r *rand.Rand, quick bool, skip map[string]bool) []*Scenario {
 		}
 		out = append(out, s)
 	}
-	mul := 1
+	mul := 3
 	if !quick {
-		mul = 10
+		mul = 14
 	}
 	// 1. honest peers, all chain pairs (fork point 0..8, local ahead of / equal to / behind the fork).
 	for i := 0; i < 27*mul; i++ {
@@ -280,9 +280,9 @@ func genScenarios(r *rand.Rand, quick bool, skip map[string]bool) []*Scenario {
 		})
 	}
 	// 3. SyncStop at every step index of an otherwise honest session.
-	nstop := 1
+	nstop := 2
 	if !quick {
-		nstop = 8
+		nstop = 10
 	}
 	for k := 0; k < nstop; k++ {
 		proto := baseScenario(r, 0)
@@ -348,6 +348,13 @@ func genScenarios(r *rand.Rand, quick bool, skip map[string]bool) []*Scenario {
 				s.HashReq = s.BlockReq + r.Intn(4)
 				s.SideFork = r.Intn(s.Fork + 1)
 			}
+		})
+	}
+	for i := 0; i < 3*mul; i++ {
+		add("hash", func(s *Scenario) { // one hash too many in every answer, also in the one that reaches the target
+			s.Hash = []string{"many", "many", "many", "many", "many", "many", "many", "many", "many", "many", "many", "many"}
+			s.RemoteExtra = s.LocalExtra + 3 + r.Intn(8)
+			s.TargetBack = 1 + r.Intn(2)
 		})
 	}
 	// 7. finder faults.
